@@ -158,6 +158,18 @@ func CallProg(contract []byte) []byte {
 	return p
 }
 
+// IsCall reports whether prog calls a registered contract and returns the contract hash.
+func IsCall(prog []byte) ([32]byte, bool) {
+	if !bcrp.IsCallContractScript(prog) {
+		return [32]byte{}, false
+	}
+	h, err := bcrp.ParseContractHash(prog)
+	if err != nil {
+		return [32]byte{}, false
+	}
+	return h, true
+}
+
 // IsRegister reports whether prog is a BCRP registration and returns the contract.
 func IsRegister(prog []byte) ([]byte, bool) {
 	if !bcrp.IsBCRPScript(prog) {
